@@ -40,10 +40,14 @@ theorem mandIE_spec (s : Shape) (e : List WOp) (d : List ROp) (v : Val) (mw : MW
     rcases hf with ⟨h1, hlt⟩ | ⟨h2, hlt⟩
     · simp [h1] at hw; subst hw
       cases mw <;> simp [mandMatches] at hm
-      simp [Spec.Ts24501.encMand, mandToSpec, h1, lenBytes_one, ← hvl, hlt, ht]
+      rename_i fx
+      cases fx <;> simp [mandMatches] at hm
+      simp [Spec.Ts24501.encMand, mandToSpec, h1, lenBytes_one, ← hvl, hlt, ht, fixedOK]
     · simp [h2] at hw; subst hw
       cases mw <;> simp [mandMatches] at hm
-      simp [Spec.Ts24501.encMand, mandToSpec, h2, lenBytes_two, ← hvl, hlt, ht]
+      rename_i fx
+      cases fx <;> simp [mandMatches] at hm
+      simp [Spec.Ts24501.encMand, mandToSpec, h2, lenBytes_two, ← hvl, hlt, ht, fixedOK]
   · -- Len + whole Octet array
     simp at hk
     simp [mandValOK] at hv
@@ -58,12 +62,14 @@ theorem mandIE_spec (s : Shape) (e : List WOp) (d : List ROp) (v : Val) (mw : MW
       cases mw <;> simp [mandMatches] at hm
       rename_i fx
       cases fx <;> simp [mandMatches] at hm
-      simp [Spec.Ts24501.encMand, mandToSpec, h1, lenBytes_one, hd, ← hs, hlt, ht]
+      simp [Spec.Ts24501.encMand, mandToSpec, h1, lenBytes_one, hd, ← hs, hlt, ht, fixedOK]
+      omega
     · simp [h2] at hw; subst hw
       cases mw <;> simp [mandMatches] at hm
       rename_i fx
       cases fx <;> simp [mandMatches] at hm
-      simp [Spec.Ts24501.encMand, mandToSpec, h2, lenBytes_two, hd, ← hs, hlt, ht]
+      simp [Spec.Ts24501.encMand, mandToSpec, h2, lenBytes_two, hd, ← hs, hlt, ht, fixedOK]
+      omega
   · -- empty struct
     simp [mandValOK] at hv
     simp [mandWireOf] at hw
